@@ -352,4 +352,292 @@ theorem ub_reachable_on_pinned :
   refine ⟨by decide, by decide, by decide⟩
 
 
+/-- decoded doubles have a 53-bit mantissa -/
+def Dbl.wf : Dbl → Prop
+  | .fin _ m _ => m < 9007199254740992
+  | _ => True
+
+theorem decode_wf (b : Nat) : (decode b).wf := by
+  unfold decode
+  simp only []
+  split
+  · split <;> simp [Dbl.wf]
+  · split
+    · simp only [Dbl.wf]; omega
+    · simp only [Dbl.wf]; omega
+
+theorem cmpIntDbl_fin (n : Int) (neg : Bool) (m : Nat) (e : Int) :
+    cmpIntDbl n (.fin neg m e) =
+      if 0 ≤ e then cmp3 n (smant neg m * 2 ^ e.toNat) else cmp3 (n * 2 ^ (-e).toNat) (smant neg m) := by
+  unfold cmpIntDbl cmpDyadic
+  by_cases he : 0 ≤ e
+  · have h1 : min 0 e = 0 := by omega
+    simp [h1, he]
+  · have h1 : min 0 e = e := by omega
+    have h2 : (0 - e) = -e := by omega
+    simp [h1, he, h2]
+
+theorem smant_abs (neg : Bool) (m : Nat) : -(m : Int) ≤ smant neg m ∧ smant neg m ≤ (m : Int) := by
+  unfold smant; cases neg <;> simp <;> omega
+
+theorem rnd53_small (x : Int) (h : -two53 < x ∧ x < two53) : rnd53 x = x := by
+  simp only [rnd53]
+  consts
+  rw [if_pos (by omega)]
+
+theorem rnd53_big (x : Int) : (two53 ≤ x → two53 ≤ rnd53 x) ∧ (x ≤ -two53 → rnd53 x ≤ -two53) := by
+  have key : ∀ a : Nat, 9007199254740992 ≤ a →
+      9007199254740992 ≤ (if a % 2 ^ (a.log2 - 52) > 2 ^ (a.log2 - 52 - 1) ∨ (a % 2 ^ (a.log2 - 52) = 2 ^ (a.log2 - 52 - 1) ∧ a / 2 ^ (a.log2 - 52) % 2 = 1)
+        then a / 2 ^ (a.log2 - 52) + 1 else a / 2 ^ (a.log2 - 52)) * 2 ^ (a.log2 - 52) := by
+    intro a ha
+    have hne : a ≠ 0 := by omega
+    have hl := Nat.log2_self_le hne
+    have h53 : 53 ≤ a.log2 := by
+      have : 2 ^ 53 ≤ a := by simpa using ha
+      exact (Nat.le_log2 hne).2 this
+    have hk : a.log2 = (a.log2 - 52) + 52 := by omega
+    generalize a.log2 - 52 = k at *
+    have hk1 : 1 ≤ k := by omega
+    have hq : 2 ^ 52 ≤ a / 2 ^ k := by
+      rw [Nat.le_div_iff_mul_le (Nat.two_pow_pos k)]
+      calc 2 ^ 52 * 2 ^ k = 2 ^ (k + 52) := by rw [Nat.pow_add, Nat.mul_comm]
+        _ = 2 ^ a.log2 := by rw [← hk]
+        _ ≤ a := hl
+    have h2k : 2 ≤ 2 ^ k := by
+      calc 2 = 2 ^ 1 := rfl
+        _ ≤ 2 ^ k := Nat.pow_le_pow_right (by decide) hk1
+    have : 2 ^ 52 * 2 ≤ (a / 2 ^ k) * 2 ^ k := Nat.mul_le_mul hq h2k
+    split
+    · have : (a / 2 ^ k) * 2 ^ k ≤ (a / 2 ^ k + 1) * 2 ^ k := Nat.mul_le_mul_right _ (by omega)
+      omega
+    · omega
+  have key' : ∀ a : Nat, 9007199254740992 ≤ a →
+      (9007199254740992 : Int) ≤ Int.ofNat ((if a % 2 ^ (a.log2 - 52) > 2 ^ (a.log2 - 52 - 1) ∨ (a % 2 ^ (a.log2 - 52) = 2 ^ (a.log2 - 52 - 1) ∧ a / 2 ^ (a.log2 - 52) % 2 = 1)
+        then a / 2 ^ (a.log2 - 52) + 1 else a / 2 ^ (a.log2 - 52)) * 2 ^ (a.log2 - 52)) :=
+    fun a ha => Int.ofNat_le.2 (key a ha)
+  constructor
+  · intro h
+    simp only [rnd53]
+    consts
+    have hna : 9007199254740992 ≤ x.natAbs := by omega
+    rw [if_neg (by omega), if_neg (by omega)]
+    exact key' x.natAbs hna
+  · intro h
+    simp only [rnd53]
+    consts
+    have hna : 9007199254740992 ≤ x.natAbs := by omega
+    rw [if_neg (by omega), if_pos (by omega)]
+    have := key' x.natAbs hna
+    omega
+
+
+theorem rnd53_cases (x : Int) :
+    (-9007199254740992 < x ∧ x < 9007199254740992 ∧ rnd53 x = x) ∨ (9007199254740992 ≤ x ∧ 9007199254740992 ≤ rnd53 x) ∨
+    (x ≤ -9007199254740992 ∧ rnd53 x ≤ -9007199254740992) := by
+  have h1 := rnd53_small x
+  have h2 := rnd53_big x
+  consts
+  by_cases a : 9007199254740992 ≤ x
+  · right; left; exact ⟨a, h2.1 a⟩
+  · by_cases b : x ≤ -9007199254740992
+    · right; right; exact ⟨b, h2.2 b⟩
+    · left; exact ⟨by omega, by omega, h1 ⟨by omega, by omega⟩⟩
+
+theorem pow2_ge_one (n : Nat) : (1 : Int) ≤ 2 ^ n := Int.pow_pos (by decide)
+
+theorem cmp3_eq_neg_one (a b : Int) : cmp3 a b = -1 ↔ a < b := by unfold cmp3; split <;> (try split) <;> omega
+theorem cmp3_eq_one (a b : Int) : cmp3 a b = 1 ↔ b < a := by unfold cmp3; split <;> (try split) <;> omega
+theorem cmp3_le_zero (a b : Int) : cmp3 a b ≤ 0 ↔ a ≤ b := by unfold cmp3; split <;> (try split) <;> omega
+theorem cmp3_of_lt {a b : Int} (h : a < b) : cmp3 a b = -1 := (cmp3_eq_neg_one a b).2 h
+theorem cmp3_of_gt {a b : Int} (h : b < a) : cmp3 a b = 1 := (cmp3_eq_one a b).2 h
+
+/-- core of the signed comparison, on plain integers: `w` is the (scaled) value of the double, `xp`/`rp` the (scaled)
+    integer and its rounding -/
+theorem cmpS_core (xp rp w lo hi : Int) (_hh : lo ≤ hi)
+    (hr : (lo < xp ∧ xp < hi ∧ rp = xp) ∨ (hi ≤ xp ∧ hi ≤ rp) ∨ (xp ≤ lo ∧ rp ≤ lo)) (c1 : lo < w ∧ w < hi) :
+    cmp3 rp w = cmp3 xp w := by
+  rcases hr with ⟨_, _, e⟩ | ⟨a, b⟩ | ⟨a, b⟩
+  · rw [e]
+  · rw [cmp3_of_gt (show w < rp by omega), cmp3_of_gt (show w < xp by omega)]
+  · rw [cmp3_of_lt (show rp < w by omega), cmp3_of_lt (show xp < w by omega)]
+
+theorem compareInt64Double_correct (c : Cfg) (hu : c.cmpSUpperIncl = true) (hl : c.cmpSLowerIncl = false)
+    (x : Int) (hx : Kind.s64.inRange x) (y : Dbl) (hy : y ≠ .nan) (hw : y.wf) :
+    compareInt64Double c x y = .ok (cmpIntDbl x y) := by
+  cases y with
+  | nan => exact absurd rfl hy
+  | inf neg => cases neg <;> simp [compareInt64Double, cmpIntDbl, hu, hl]
+  | fin neg m e =>
+    have hv := smant_abs neg m
+    simp only [Dbl.wf] at hw
+    unfold compareInt64Double
+    simp only [cmpIntDbl_fin, hu, hl, if_true, Dbl.trunc?]
+    consts
+    have hr := rnd53_cases x
+    by_cases he : 0 ≤ e
+    · simp only [he, if_true, cmp3_eq_neg_one, cmp3_eq_one, cmp3_le_zero]
+      generalize smant neg m * 2 ^ e.toNat = w
+      by_cases c1 : -9007199254740992 < w ∧ w < 9007199254740992
+      · rw [if_pos c1, cmpS_core x (rnd53 x) w _ _ (by decide) hr c1]
+      · rw [if_neg c1]
+        by_cases c2 : 9223372036854775808 ≤ w
+        · rw [if_pos c2, cmp3_of_lt (show x < w by omega)]
+        · rw [if_neg c2]
+          by_cases c3 : w < -9223372036854775808
+          · simp only [Bool.false_eq_true, if_false]; rw [if_pos c3, cmp3_of_gt (show w < x by omega)]
+          · simp only [Bool.false_eq_true, if_false]; rw [if_neg c3, if_pos (by omega)]
+    · simp only [he, if_false, cmp3_eq_neg_one, cmp3_eq_one, cmp3_le_zero]
+      have hP := pow2_ge_one (-e).toNat
+      generalize (2 : Int) ^ (-e).toNat = P at *
+      generalize smant neg m = v at *
+      have c1 : -9007199254740992 * P < v ∧ v < 9007199254740992 * P := by omega
+      rw [if_pos c1]
+      congr 1
+      have hr' : (-9007199254740992 * P < x * P ∧ x * P < 9007199254740992 * P ∧ rnd53 x * P = x * P) ∨
+          (9007199254740992 * P ≤ x * P ∧ 9007199254740992 * P ≤ rnd53 x * P) ∨
+          (x * P ≤ -9007199254740992 * P ∧ rnd53 x * P ≤ -9007199254740992 * P) := by
+        have hP0 : (0 : Int) < P := by omega
+        rcases hr with ⟨a, b, e⟩ | ⟨a, b⟩ | ⟨a, b⟩
+        · left; exact ⟨Int.mul_lt_mul_of_pos_right a hP0, Int.mul_lt_mul_of_pos_right b hP0, by rw [e]⟩
+        · right; left; exact ⟨Int.mul_le_mul_of_nonneg_right a (by omega), Int.mul_le_mul_of_nonneg_right b (by omega)⟩
+        · right; right; exact ⟨Int.mul_le_mul_of_nonneg_right a (by omega), Int.mul_le_mul_of_nonneg_right b (by omega)⟩
+      exact cmpS_core (x * P) (rnd53 x * P) v _ _ (by omega) hr' c1
+
+
+theorem cmp3_eq_zero (a b : Int) : cmp3 a b = 0 ↔ a = b := by unfold cmp3; split <;> (try split) <;> omega
+
+/-- signed, any configuration whose lower test is exclusive: correct for every double except (when the upper test is
+    exclusive too) the single value 2^63 -/
+theorem compareInt64Double_partial (c : Cfg) (hl : c.cmpSLowerIncl = false)
+    (x : Int) (hx : Kind.s64.inRange x) (y : Dbl) (hy : y ≠ .nan) (hw : y.wf)
+    (hu : c.cmpSUpperIncl = true ∨ cmpIntDbl two63 y ≠ 0) :
+    compareInt64Double c x y = .ok (cmpIntDbl x y) := by
+  rcases hu with hu | hu
+  · exact compareInt64Double_correct c hu hl x hx y hy hw
+  · cases hi : c.cmpSUpperIncl
+    · cases y with
+      | nan => exact absurd rfl hy
+      | inf neg => cases neg <;> simp [compareInt64Double, cmpIntDbl, hi, hl]
+      | fin neg m e =>
+        have hv := smant_abs neg m
+        simp only [Dbl.wf] at hw
+        unfold compareInt64Double
+        simp only [cmpIntDbl_fin, hi, hl, Dbl.trunc?] at hu ⊢
+        consts
+        have hr := rnd53_cases x
+        by_cases he : 0 ≤ e
+        · simp only [he, if_true, cmp3_eq_neg_one, cmp3_eq_one, cmp3_le_zero, ne_eq, cmp3_eq_zero] at hu ⊢
+          generalize smant neg m * 2 ^ e.toNat = w at *
+          by_cases c1 : -9007199254740992 < w ∧ w < 9007199254740992
+          · rw [if_pos c1, cmpS_core x (rnd53 x) w _ _ (by decide) hr c1]
+          · rw [if_neg c1]
+            simp only [Bool.false_eq_true, if_false]
+            by_cases c2 : 9223372036854775808 < w
+            · rw [if_pos c2, cmp3_of_lt (show x < w by omega)]
+            · rw [if_neg c2]
+              by_cases c3 : w < -9223372036854775808
+              · rw [if_pos c3, cmp3_of_gt (show w < x by omega)]
+              · rw [if_neg c3, if_pos (by omega)]
+        · simp only [he, if_false, cmp3_eq_neg_one, cmp3_eq_one, cmp3_le_zero]
+          have hP := pow2_ge_one (-e).toNat
+          generalize (2 : Int) ^ (-e).toNat = P at *
+          generalize smant neg m = v at *
+          have c1 : -9007199254740992 * P < v ∧ v < 9007199254740992 * P := by omega
+          rw [if_pos c1]
+          congr 1
+          have hr' : (-9007199254740992 * P < x * P ∧ x * P < 9007199254740992 * P ∧ rnd53 x * P = x * P) ∨
+              (9007199254740992 * P ≤ x * P ∧ 9007199254740992 * P ≤ rnd53 x * P) ∨
+              (x * P ≤ -9007199254740992 * P ∧ rnd53 x * P ≤ -9007199254740992 * P) := by
+            have hP0 : (0 : Int) < P := by omega
+            rcases hr with ⟨a, b, e⟩ | ⟨a, b⟩ | ⟨a, b⟩
+            · left; exact ⟨Int.mul_lt_mul_of_pos_right a hP0, Int.mul_lt_mul_of_pos_right b hP0, by rw [e]⟩
+            · right; left; exact ⟨Int.mul_le_mul_of_nonneg_right a (by omega), Int.mul_le_mul_of_nonneg_right b (by omega)⟩
+            · right; right; exact ⟨Int.mul_le_mul_of_nonneg_right a (by omega), Int.mul_le_mul_of_nonneg_right b (by omega)⟩
+          exact cmpS_core (x * P) (rnd53 x * P) v _ _ (by omega) hr' c1
+    · exact compareInt64Double_correct c hi hl x hx y hy hw
+
+/-- unsigned: correct for every double except (when the upper test is exclusive) the single value 2^64 -/
+theorem compareUint64Double_partial (c : Cfg)
+    (x : Int) (hx : Kind.u64.inRange x) (y : Dbl) (hy : y ≠ .nan) (hw : y.wf)
+    (hu : c.cmpUUpperIncl = true ∨ cmpIntDbl two64 y ≠ 0) :
+    compareUint64Double c x y = .ok (cmpIntDbl x y) := by
+  cases y with
+  | nan => exact absurd rfl hy
+  | inf neg => cases neg <;> cases hi : c.cmpUUpperIncl <;> simp [compareUint64Double, cmpIntDbl, hi]
+  | fin neg m e =>
+    have hv := smant_abs neg m
+    simp only [Dbl.wf] at hw
+    unfold compareUint64Double
+    simp only [cmpIntDbl_fin, Dbl.trunc?] at hu ⊢
+    consts
+    have hr := rnd53_cases x
+    by_cases he : 0 ≤ e
+    · simp only [he, if_true, cmp3_eq_neg_one, cmp3_eq_one, cmp3_le_zero, ne_eq, cmp3_eq_zero] at hu ⊢
+      generalize smant neg m * 2 ^ e.toNat = w at *
+      by_cases c0 : w < 0
+      · rw [if_pos c0, cmp3_of_gt (show w < x by omega)]
+      · rw [if_neg c0]
+        by_cases c1 : 0 ≤ w ∧ w < 9007199254740992
+        · rw [if_pos c1]
+          congr 1
+          rcases hr with ⟨_, _, e⟩ | ⟨a, b⟩ | ⟨a, b⟩
+          · rw [e]
+          · rw [cmp3_of_gt (show w < rnd53 x by omega), cmp3_of_gt (show w < x by omega)]
+          · omega
+        · rw [if_neg c1]
+          by_cases c2 : 18446744073709551616 < w
+          · have : (if c.cmpUUpperIncl = true then 18446744073709551616 ≤ w else 18446744073709551616 < w) := by
+              split <;> omega
+            rw [if_pos this, cmp3_of_lt (show x < w by omega)]
+          · by_cases c3 : w = 18446744073709551616
+            · rcases hu with hu | hu
+              · rw [hu]; simp only [if_true]; rw [if_pos (by omega), cmp3_of_lt (show x < w by omega)]
+              · exact absurd c3.symm hu
+            · have : ¬ (if c.cmpUUpperIncl = true then 18446744073709551616 ≤ w else 18446744073709551616 < w) := by
+                split <;> omega
+              rw [if_neg this, if_pos (by omega)]
+    · simp only [he, if_false, cmp3_eq_neg_one, cmp3_eq_one, cmp3_le_zero]
+      have hP := pow2_ge_one (-e).toNat
+      generalize (2 : Int) ^ (-e).toNat = P at *
+      generalize smant neg m = v at *
+      have hP0 : (0 : Int) < P := by omega
+      by_cases c0 : v < 0 * P
+      · rw [if_pos c0]
+        have : 0 * P ≤ x * P := Int.mul_le_mul_of_nonneg_right hx.1 (by omega)
+        rw [cmp3_of_gt (show v < x * P by omega)]
+      · rw [if_neg c0]
+        have c1 : 0 * P ≤ v ∧ v < 9007199254740992 * P := by omega
+        rw [if_pos c1]
+        congr 1
+        rcases hr with ⟨a, b, e⟩ | ⟨a, b⟩ | ⟨a, b⟩
+        · rw [e]
+        · have h1 := Int.mul_le_mul_of_nonneg_right a (show 0 ≤ P by omega)
+          have h2 := Int.mul_le_mul_of_nonneg_right b (show 0 ≤ P by omega)
+          rw [cmp3_of_gt (show v < rnd53 x * P by omega), cmp3_of_gt (show v < x * P by omega)]
+        · omega
+
+
+/-- s64 against u64 (both directions): ordered by mathematical value -/
+theorem compareMethod_ints (c : Cfg) (x y : Int) (hx : Kind.s64.inRange x) (hy : Kind.u64.inRange y) :
+    compareMethod c .s64 x (.u64 y) = .ok (some (cmp3 x y)) ∧ compareMethod c .u64 y (.s64 x) = .ok (some (cmp3 y x)) ∧
+    compareMethod c .s64 x (.s64 y) = .ok (some (cmp3 x y)) ∧ compareMethod c .u64 x (.u64 y) = .ok (some (cmp3 x y)) := by
+  consts
+  refine ⟨?_, ?_, rfl, rfl⟩
+  · simp only [compareMethod]
+    consts
+    congr 2
+    unfold cmp3
+    (repeat' split) <;> omega
+  · simp only [compareMethod]
+    consts
+    congr 2
+    unfold cmp3
+    (repeat' split) <;> omega
+
+/-- on the pinned tree the value 2^63 (resp. 2^64) reaches the double -> integer cast, which is undefined for it -/
+theorem compare_ub_on_pinned :
+    compareInt64Double cfgPinned 5 (decode 0x43e0000000000000) = .ub ∧ cmpIntDbl 5 (decode 0x43e0000000000000) = -1 ∧
+    compareUint64Double cfgPinned 5 (decode 0x43f0000000000000) = .ub ∧ cmpIntDbl 5 (decode 0x43f0000000000000) = -1 := by
+  refine ⟨by decide, by decide, by decide, by decide⟩
+
 end JanetModel.Int64
